@@ -30,6 +30,10 @@ pub mod mutate;
 use mutate::{Label, Sch};
 #[path = "imports.rs"]
 pub mod imports;
+/// validity-preserving renamings that make names of GraphQL's separate namespaces coincide (written for C12, reused as is)
+#[path = "../c12/names.rs"]
+#[allow(dead_code)]
+mod names;
 
 #[derive(Clone, Debug)]
 pub struct Case {
@@ -262,6 +266,28 @@ fn record(best: &mut Best, stream: &str, signature: &str, what: &str, case: J, s
     }
 }
 
+/// the answers of `(all ts d)` for many documents over ONE schema, asked as `(all* ts d …)` in chunks: the driver parses,
+/// decodes and judges the schema once per chunk instead of once per document
+fn all_many(drv: &mut Driver, ts: &Sexp, docs: Vec<Sexp>) -> Vec<Sexp> {
+    let mut reqs = vec![];
+    let mut sizes = vec![];
+    for ch in docs.chunks(100) {
+        let mut v = vec![ts.clone()];
+        v.extend(ch.iter().cloned());
+        reqs.push(Sexp::call("all*", v));
+        sizes.push(ch.len());
+    }
+    let mut out = vec![];
+    for (a, n) in drv.batch(&reqs).into_iter().zip(sizes) {
+        if a.head() == Some("all*") && a.args().len() == n {
+            out.extend(a.args().iter().cloned());
+        } else {
+            out.extend(std::iter::repeat(a).take(n));
+        }
+    }
+    out
+}
+
 fn triple_of(e: &Sexp) -> Triple {
     let l = e.as_list().unwrap_or(&[]);
     (l.first().and_then(|x| x.as_atom()).unwrap_or("?").to_string(), l.get(1).and_then(|x| x.as_int()).unwrap_or(-1) as usize, l.get(2).and_then(|x| x.as_int()).unwrap_or(-1) as usize)
@@ -292,6 +318,9 @@ fn classify_c04(sm: Option<&SchemaModel>, doc: &Doc, d: &Triple) -> String {
     let sites = mutate::collect_sites(&sch, doc);
     if d.0 == "SubscriptionMustHaveExactlyOneRootField" {
         return "subscription-root".into();
+    }
+    if d.0 == "DuplicateOperationName" || d.0 == "DuplicateFragmentName" || d.0 == "UnNamedOperationMustBeSingle" {
+        return "definition-name".into();
     }
     for s in &sites.vals {
         if s.pos.known && s.pos.line == d.1 && s.pos.col == d.2 {
@@ -384,14 +413,14 @@ impl<'a> Ctx<'a> {
             let files: Vec<(String, Doc)> = projects[pi].files.iter().zip(o.parsed.iter()).map(|(f, d)| (f.path.clone(), d.clone())).collect();
             for (ri, r) in o.roots.iter().enumerate() {
                 let has_all = if let imports::RootOut::Checked { doc, .. } = r {
-                    reqs.push(Sexp::call("all", vec![ts.clone(), doc.to_sexp()]));
+                    reqs.push(doc.to_sexp());
                     true
                 } else {
                     false
                 };
                 let has_spec = match imports::abstract_merge(&files, ri) {
                     Ok(d) => {
-                        reqs.push(Sexp::call(if projects[pi].labels.is_empty() { "valid.spec" } else { "valid.rules" }, vec![ts.clone(), d.to_sexp()]));
+                        reqs.push(d.to_sexp());
                         abstracts.insert((pi, ri), Ok(()));
                         true
                     }
@@ -403,7 +432,7 @@ impl<'a> Ctx<'a> {
                 idx.push((pi, ri, has_all, has_spec));
             }
         }
-        let ans = self.drv.batch(&reqs);
+        let ans = all_many(self.drv, &ts, reqs);
         let mut k = 0;
         for (pi, ri, has_all, has_spec) in idx {
             let p = &projects[pi];
@@ -437,8 +466,11 @@ impl<'a> Ctx<'a> {
                 self.rep.count(&format!("import:abstract-merge-undefined:{}", abstracts.get(&(pi, ri)).and_then(|r| r.as_ref().err()).map(|e| e.split(':').next().unwrap_or("").to_string()).unwrap_or_default()));
                 continue;
             }
-            let a = &ans[k];
+            // of the `all` answer on the abstract merge: (rules …) for labelled projects, (spec …) for valid ones
+            let whole = &ans[k];
             k += 1;
+            let dummy = Sexp::call("none", vec![]);
+            let a = if whole.head() == Some("all") { whole.args().get(if p.labels.is_empty() { 2 } else { 1 }).unwrap_or(&dummy) } else { &dummy };
             if self.prop == "C03" && !p.labels.is_empty() {
                 // ---- O (C03): the abstract merge violates the labelled rule(s) ⇒ a diagnostic of a kind of the rule ----
                 let rules = strs(a);
@@ -560,7 +592,7 @@ impl<'a> Ctx<'a> {
         for (i, o) in outs.iter().enumerate() {
             match o {
                 RealOut::Checked { doc, .. } => {
-                    reqs.push(Sexp::call("all", vec![ts.clone(), doc.to_sexp()]));
+                    reqs.push(doc.to_sexp());
                     idx.push(i);
                 }
                 RealOut::NotChecked(why) => {
@@ -572,7 +604,7 @@ impl<'a> Ctx<'a> {
                 }
             }
         }
-        let ans = self.drv.batch(&reqs);
+        let ans = all_many(self.drv, &ts, reqs);
         for (a, i) in ans.iter().zip(idx) {
             let case = &cases[i];
             let RealOut::Checked { doc, diags, raw } = &outs[i] else { continue };
@@ -750,6 +782,42 @@ fn corpus() -> Vec<Case> {
         c("impossible", "query Q { a { ... on B { y } } }", lbl("5.5.2.3", "op/inline/Object-in-Object", "impossible-spread")),
         c("args", "query Q { f(zz: 1) a { x(q: 1) } }", lbl("5.4.1", "op/field-arg", "unknown-argument")),
         c("required", "query Q { f }", lbl("5.4.2.1", "op/field-arg", "drop-required-argument")),
+        // names of different namespaces may coincide (C04): operation = fragment = field = type = variable = directive
+        c("op-name=fragment-name", "query A { a { ...A } } fragment A on A { id }", vec![]),
+        c("fragment-before-op-of-its-name", "fragment Q on A { id } query Q { a { ...Q } }", vec![]),
+        c("names-across-namespaces", "query tag($a: Int = 1, $tag: String) @tag(label: $tag) { a: f(n: $a) a2: a { ...a ...f ...X } } fragment a on A { x } fragment f on A { id } fragment X on A { b { y } }", vec![]),
+        c("names-differ-by-case", "query q { a { ...Q ...f } } query Q { a { ...F } } fragment Q on A { x } fragment f on A { id } fragment F on A { x }", vec![]),
+        c("anonymous-op-and-fragment-named-query", "{ a { ...query } } fragment query on A { x }", vec![]),
+    ]
+    .into_iter()
+    .chain(diamond_corpus())
+    .collect()
+}
+
+/// interfaces joined only by an interface: `... on B` inside an A-typed scope can never apply (5.5.2.3) unless an
+/// OBJECT implements both
+fn diamond_corpus() -> Vec<Case> {
+    let s2 = "type Query { a: A b: B c: C l: Lonely u: U }\n\
+              interface A { x: Int peer: B }\n\
+              interface B { y: Int }\n\
+              interface C implements A & B { x: Int peer: B y: Int }\n\
+              interface Lonely { z: Int }\n\
+              type OA implements A { x: Int peer: B }\n\
+              type OB implements B { y: Int }\n\
+              union U = OA | OB\n";
+    let s3 = format!("{s2}type OAB implements A & B {{ x: Int peer: B y: Int }}\n");
+    let c = |sdl: &str, name: &str, doc: &str, labels: Vec<Label>| Case { sdl: vec![sdl.to_string()], text: doc.to_string(), labels, origin: format!("corpus:{name}"), features: vec![name.to_string()], raw_schema: false };
+    let l = |class: &str| lbl("5.5.2.3", class, "impossible-spread-between-types");
+    vec![
+        c(s2, "diamond-inline", "query Q { a { ... on B { y } } }", l("between-types/Interface-in-Interface/joined-only-by-an-interface")),
+        c(s2, "diamond-spread", "query Q { b { ...FA } } fragment FA on A { x }", l("between-types/Interface-in-Interface/joined-only-by-an-interface")),
+        c(s2, "diamond-at-depth", "query Q { a { peer { ... { ...FA } } } } fragment FA on A { x }", l("between-types/Interface-in-Interface/joined-only-by-an-interface")),
+        c(s2, "diamond-in-unspread-fragment", "fragment H on A { ... on B { y } }", l("between-types/Interface-in-Interface/joined-only-by-an-interface")),
+        c(s2, "interface-without-objects-in-interface", "query Q { a { ... on C { y } } }", l("between-types/Interface-in-Interface")),
+        c(s2, "lonely-interface-in-union", "query Q { u { ... on Lonely { z } } }", l("between-types/Interface-in-Union")),
+        c(s2, "object-in-unrelated-interface", "query Q { b { ... on OA { x } } }", l("between-types/Object-in-Interface")),
+        // with a common object implementer the same documents are valid
+        c(&s3, "diamond-with-common-object", "query Q { a { ... on B { y } } b { ...FA } } fragment FA on A { x }", vec![]),
     ]
 }
 
@@ -845,8 +913,16 @@ pub fn run(prop: &str) {
             break;
         }
         let cfg = GenCfg { coercions: prop == "C04" && si % 3 == 2, explicit_schema: si % 2 == 0, ..GenCfg::default() };
-        let schema = gen_schema(&mut rng, &cfg);
+        let mut schema = gen_schema(&mut rng, &cfg);
+        // two schemas out of three get interface diamonds (interfaces implementing several interfaces, an interface
+        // without object implementers, objects implementing only some of them)
+        if si % 3 != 0 {
+            for f in mutate::add_interface_diamonds(&mut rng, &mut schema) {
+                ctx.rep.count(&format!("feature:{f}"));
+            }
+        }
         let sdl = vec![schema.sdl()];
+        let type_names: Vec<String> = schema.types().map(|t| t.name.clone()).collect();
         let sch = Sch { m: &schema };
         let mut cases: Vec<Case> = vec![];
         let mut projects: Vec<imports::Project> = vec![];
@@ -893,9 +969,27 @@ pub fn run(prop: &str) {
                     f.push("variation:reordered-definitions".into());
                     cases.push(Case { sdl: sdl.clone(), text: render(&d2, &mut rng), labels: vec![], origin: "valid-variant:reordered-definitions".into(), features: f, raw_schema: false });
                 }
-                // multi-file projects with #import (every other document)
+                // names of GraphQL's separate namespaces coincide: operation = fragment, fragment / operation = a field /
+                // alias / variable / directive / type / argument / enum value, names differing only by case, keyword-like
+                // names, an anonymous operation beside a fragment with its former name
+                let mut collided: Option<Doc> = None;
+                if rng.chance(1, 2) {
+                    let mut d2 = doc.clone();
+                    let labels = names::collide_names(&mut rng, &mut d2, &type_names);
+                    if !labels.is_empty() {
+                        let mut f = feats.clone();
+                        f.extend(labels.into_iter());
+                        cases.push(Case { sdl: sdl.clone(), text: render(&d2, &mut rng), labels: vec![], origin: "valid-variant:name-collision".into(), features: f, raw_schema: false });
+                        collided = Some(d2);
+                    }
+                }
+                // multi-file projects with #import (every other document; one third of them with colliding names)
                 if di % 2 == 0 {
-                    if let Some(p) = imports::gen_project(&mut rng, &sdl, &doc, noisy) {
+                    let base = match &collided {
+                        Some(d2) if rng.chance(1, 3) => d2,
+                        _ => &doc,
+                    };
+                    if let Some(p) = imports::gen_project(&mut rng, &sdl, base, noisy) {
                         projects.push(p);
                     }
                 }
@@ -930,7 +1024,11 @@ pub fn run(prop: &str) {
             let n_mut = if prop == "C03" { args.budget(6, 10) } else { 2 };
             let sites = mutate::collect_sites(&sch, &doc);
             for _ in 0..n_mut {
-                let name = mutate::MUTATIONS[rng.below(mutate::MUTATIONS.len())];
+                let mut name = mutate::MUTATIONS[rng.below(mutate::MUTATIONS.len())];
+                if prop == "C03" && rng.chance(1, 12) {
+                    // every pair of composite types deserves its turn: this operator gets extra weight
+                    name = "impossible-spread-between-types";
+                }
                 // shape transformation first (C03): the fault is injected into a document in which several
                 // definitions reach the same fragments / definitions come in another order
                 let per_op = name.ends_with("-in-one-operation");
